@@ -360,6 +360,7 @@ func (ex *Exec) finishRoot(fr *Frame, pre *State) {
 	}
 	// verdicts of the primitives called by this function
 	vars["sig_ok"], vars["aead_ok"], vars["ctcmp_ok"] = boolVal("false"), boolVal("false"), boolVal("false")
+	vars["fs_written"] = Val{T: types.Typ[types.UnsafePointer], L: []string{"(- 2)"}}
 	for k, v := range ex.ghostVars {
 		vars[k] = v
 	}
